@@ -241,7 +241,18 @@ func rqRun(which string) func(c *core.Ctx) {
 		}
 		c.Set("evaluations", evals.Load())
 		c.Set("distinct_nontrivial", distinct.Load())
-		c.ReverseOrderPass("mc-shim")
+		fixed := func(s, d int) bool { return dyn.Types[s].Kind != dyn.Float && dyn.Types[d].Kind != dyn.Float }
+		judge := func(s, d int, in, out uint64) (string, string) {
+			ts, td := dyn.Types[s], dyn.Types[d]
+			return rqOracle(which, ts.Bits, td.Bits, rawToAmp(ts.Kind, ts.Bits, in), rawToAmp(td.Kind, td.Bits, out))
+		}
+		// C06's order clause works both ways for equal inputs: equal samples must give equal results
+		digests := ctxRun(c, which, judge, which == "C06", fixed)
+		c.Set("ctx_digests", digests)
+		if res := c.ReverseOrderPass("mc-shim"); res != nil && which == "C06" {
+			ctxCompareDigests(c, digests, res.Digests)
+		}
+		c.Set("evaluations", evals.Load()+c.CtxEvals())
 		c.Set("instantiations", inst)
 		c.Set("instantiations_with_exhaustive_source_domain", exh)
 		c.Set("exhaustive", exh == inst)
@@ -249,7 +260,7 @@ func rqRun(which string) func(c *core.Ctx) {
 		if !c.Quick() {
 			tier32 = "every value (2^32)"
 		}
-		c.Set("rule", "all 121 signed/unsigned instantiations through the real conversion on real buffers with 1, 2 and 3 channels, in blocks whose destination is pre-filled with garbage; sources of 8 and 16 bits: every value; 32 bits: "+tier32+"; 64-bit sources: boundary alphabet, an arithmetic lattice of 2^18 (thorough 2^24) values with an odd step across the whole range, plus cell end points (8/16-bit destinations; 32-bit in the thorough tier); every sequence ascending in amplitude, so order preservation is a streaming never-decreases check carried across blocks and shards; distinct_nontrivial counts (instantiation, source value) pairs of the primary sequence only (distinct by construction); every value is non-trivial (it is converted and judged)")
+		c.Set("rule", "all 121 signed/unsigned instantiations through the real conversion on real buffers with 1, 2 and 3 channels, in blocks whose destination is pre-filled with garbage; sources of 8 and 16 bits: every value; 32 bits: "+tier32+"; 64-bit sources: boundary alphabet, an arithmetic lattice of 2^18 (thorough 2^24) values with an odd step across the whole range, plus cell end points (8/16-bit destinations; 32-bit in the thorough tier); every sequence ascending in amplitude, so order preservation is a streaming never-decreases check carried across blocks and shards; distinct_nontrivial counts (instantiation, source value) pairs of the primary sequence only (distinct by construction); every value is non-trivial (it is converted and judged); plus the context passes (ctxpass.go): all ordered pairs of 12 special values at every lane offset in buffers of > 4096 samples with 1-3 channels, a single special at each position 0..130 among 200 calm samples, and every ordered pair of instantiations back to back; and the whole quick sweep again in a fresh process with the instantiations in reverse order")
 		c.Assume("64-bit sources (int64,int,uint64,uint,uintptr) are covered by a finite alphabet, not exhaustively", "exact integer oracle; no floating point in the oracle", "linux/amd64")
 	}
 }
@@ -259,9 +270,18 @@ func init() {
 		w := w
 		core.Register(&core.Prop{
 			ID: w, Level: "exploration", Design: "§5 C06, C07",
-			Run:     rqRun(w),
-			Worker:  core.SweepWorker,
-			RunCase: func(c *core.Ctx, raw json.RawMessage) []F { return rqEvalCase(w, decode[rqCase](raw)) },
+			Run:    rqRun(w),
+			Worker: core.SweepWorker,
+			RunCase: func(c *core.Ctx, raw json.RawMessage) []F {
+				if isCtxCase(raw) {
+					judge := func(s, d int, in, out uint64) (string, string) {
+						ts, td := dyn.Types[s], dyn.Types[d]
+						return rqOracle(w, ts.Bits, td.Bits, rawToAmp(ts.Kind, ts.Bits, in), rawToAmp(td.Kind, td.Bits, out))
+					}
+					return ctxReplay(c, raw, judge, w == "C06")
+				}
+				return rqEvalCase(w, decode[rqCase](raw))
+			},
 		})
 	}
 }
